@@ -237,6 +237,11 @@ def login_oracle(case, obs, with_shell):
             fails.append(f"bring-up failed with TimeoutError at t={res[1] / U:.3f}s, later than boot_timeout={T / U:.3f}s after the stage began")
         if res[0] == "ok" and res[1] > T and not with_shell:
             fails.append(f"login finished at t={res[1] / U:.3f}s although boot_timeout={T / U:.3f}s had expired")
+        pw_sent = any(bytes.fromhex(bhex) == pw for _, bhex, _ in writes)
+        if res[0] == "ok" and res[1] >= T and cfg["password"] and not pw_sent and user != pw and not with_shell:
+            # the wait for the password prompt was ended by the boot timeout, not by no_password_timeout
+            fails.append(f"login continued without a password at t={res[1] / U:.3f}s: the password prompt never came and "
+                         f"boot_timeout={T / U:.3f}s expired while waiting for it (TimeoutError expected)")
         if res[0] == "blocked":
             fails.append(f"bring-up waits for ever (t={res[1] / U:.3f}s) although boot_timeout={T / U:.3f}s is configured")
     if res[0] == "exc":
